@@ -71,15 +71,27 @@ def gen_cubes(tier, seed):
         if dtype == "int16":
             win = np.round(win)
         a_, _loc, b_ = sst.gamma.fit(win, floc=0)
+        # every other cube: a share of zeros in the pixel (the index is then a quantile of the MIXTURE p0 + (1 - p0) G, also
+        # in the far wet tail, where only the survival function has resolution) and a fine ladder around 6 sigma
+        nzero = (W // 2) if k % 2 else 0
+        p0_ = nzero * 2 / (W + nzero * 2 + 8.0) if nzero else 0.0
+        zs = (-6.8, -6.3, -5.8, -5.3, 5.3, 5.8, 6.3, 6.8) if not nzero else (5.3, 5.6, 5.8, 5.9, 6.0, 6.05, 6.1, 6.2, 6.4, 6.8)
         tails = []
-        for z in (-6.8, -6.3, -5.8, -5.3, 5.3, 5.8, 6.3, 6.8):
-            x = sst.gamma.ppf(sst.norm.cdf(z), a_, scale=b_) if z < 0 else sst.gamma.isf(sst.norm.sf(z), a_, scale=b_)
+        for z in zs:
+            if z < 0:
+                x = sst.gamma.ppf(sst.norm.cdf(z), a_, scale=b_)
+            else:
+                x = sst.gamma.isf(sst.norm.sf(z) / (1.0 - p0_), a_, scale=b_)
             tails.append(float(np.round(x)) if dtype == "int16" else float(x))
         tails = [t for t in tails if 0 < t < 30000]
         rng.shuffle(tails)
         lead = rng.randint(0, len(tails))
-        xs = tails[:lead] + [float(v) for v in win.tolist()] + tails[lead:]
-        cubes.append(([xs], -9999, lead, lead + W, rng.choice(["yxt", "accessor", "grp"] if dtype != "float64" else ["yxt"]), dtype, "tails"))
+        body = [float(v) for v in win.tolist()]
+        if nzero:
+            body = body + [0.0] * nzero
+            rng.shuffle(body)
+        xs = tails[:lead] + body + tails[lead:] + [0.0] * nzero
+        cubes.append(([xs], -9999, lead, lead + len(body), rng.choice(["yxt", "accessor", "grp"] if dtype != "float64" else ["yxt"]), dtype, "tails" + ("+zeros" if nzero else "")))
     # boundary of the zero-share guard: exactly 90% zeros is still fitted, one more zero is not
     for T in (20, 30, 40) if quick else (20, 30, 40, 50, 100):
         for extra in (-1, 0, 1):
